@@ -552,3 +552,31 @@ Definition holds_lock (cfg : nat -> client) (s : state) (c : nat) (k : lkind) : 
 Definition returned (s : state) (c : nat) (r : result) : Prop := progs s c = Ret r.
 Definition mode_of (cfg : nat -> client) (c : nat) : option lkind :=
   lock_mode_of_flags (flags_of_call (c_call (cfg c))).
+
+(* ------------------------------------------------------------------ Mutex: path checks, String *)
+
+Inductive mutex_outcome := MPanic (msg : bytes) | MRun (p : prog).
+
+(* Mutex.Lock: a Mutex whose Path is empty (the zero value) panics instead of locking "" *)
+Definition mutex_lock (path : bytes) : mutex_outcome :=
+  match path with
+  | [] => if mutex_lock_panics_on_empty_path then MPanic mutex_lock_panic_msg
+          else MRun (prog_of_call CMutex)
+  | _ => MRun (prog_of_call CMutex)
+  end.
+
+(* MutexAt: None = panic *)
+Definition mutex_at (path : bytes) : option bytes + bytes :=
+  match path with
+  | [] => if mutexat_panics_on_empty_path then inr mutexat_panic_msg else inl (Some path)
+  | _ => inl (Some path)
+  end.
+
+(* fmt.Sprintf(format, path) for a format whose only verb is %s *)
+Fixpoint subst_s (fmt path : bytes) : bytes :=
+  match fmt with
+  | x25 :: x73 :: r => path ++ subst_s r path
+  | c :: r => c :: subst_s r path
+  | [] => []
+  end.
+Definition mutex_string (path : bytes) : bytes := subst_s mutex_string_format path.
